@@ -716,3 +716,66 @@ func ShortFile(s string) string {
 	}
 	return s
 }
+
+// SameCellLoad: a and b are loads of the same local variable cell (possibly
+// captured by closures) in one function, one dominating the other, and nothing
+// in between can have changed the variable: no store to it in this function on
+// a path between them, and — if any closure writes the variable — no call at
+// all in between.
+func SameCellLoad(a, b ssa.Value) bool {
+	la, ok1 := Strip(a).(*ssa.UnOp)
+	lb, ok2 := Strip(b).(*ssa.UnOp)
+	if !ok1 || !ok2 || la.Op != token.MUL || lb.Op != token.MUL {
+		return false
+	}
+	ca, cb := CellOf(la.X), CellOf(lb.X)
+	if ca == nil || ca != cb || la.Parent() != lb.Parent() {
+		return false
+	}
+	if la == lb {
+		return true
+	}
+	first, second := la, lb
+	if !InstrDominates(first, second) {
+		first, second = lb, la
+		if !InstrDominates(first, second) {
+			return false
+		}
+	}
+	fn := first.Parent()
+	closureWrites := false
+	for _, f := range Family(Root(ca.Parent())) {
+		if f == fn {
+			continue
+		}
+		for _, blk := range f.Blocks {
+			for _, in := range blk.Instrs {
+				if st, ok := in.(*ssa.Store); ok && CellOf(st.Addr) == ca {
+					closureWrites = true
+				}
+			}
+		}
+	}
+	for _, blk := range fn.Blocks {
+		for _, in := range blk.Instrs {
+			kill := false
+			switch x := in.(type) {
+			case *ssa.Store:
+				kill = CellOf(x.Addr) == ca
+			case ssa.CallInstruction:
+				if closureWrites {
+					kill = true
+				}
+				for _, arg := range x.Common().Args {
+					if CellOf(Strip(arg)) == ca {
+						kill = true
+					}
+				}
+			}
+			if kill && InstrReaches(first, in) && InstrReaches(in, second) {
+				return false
+			}
+		}
+	}
+	return true
+}
